@@ -329,3 +329,51 @@ Fixpoint drun (T : Z) (st : Z * td Z Z) (ops : list dop) : list dout :=
   | [] => []
   | o :: r => let '(st1, x) := dstep T st o in x :: drun T st1 r
   end.
+
+(* ------------------------------------------------------------------------------------------
+   overlapping handler schedules on one resource, for requests WITHOUT Block1 (stream overlapping_renderings).
+   Block2Cache.extract_or_insert (blockwise.py:120-123) computes the key, then awaits response_builder(); everything
+   after the await (store / evict / slice, :130-153) runs when the handler returns, on the cache as it is THEN.
+   [SBegin] = the request arrives and the handler is invoked; [SFinish] = that handler returns its rendering;
+   [SLater] = a request for NUM>0 (never awaits); several handlers may be pending at once. *)
+Inductive sevent :=
+| SBegin (id : Z) (req : msg)
+| SFinish (id : Z) (rendering : resp)
+| SLater (req : msg)
+| SAdvance (dt : Z).
+Inductive soutput :=
+| SOBegin (calls : list msg)
+| SOFinish (response : option resp) (n_completes : Z)
+| SOLater (calls : list msg) (response : resp) (n_completes : Z)
+| SOAdvance (n_completes : Z).
+Record sstate := { s_now : Z; s_res : rstate; s_pending : list (Z * msg) }.
+Fixpoint pending_get (id : Z) (l : list (Z * msg)) : option msg :=
+  match l with [] => None | (i, m) :: r => if i =? id then Some m else pending_get id r end.
+Definition render_result_of (r : R resp) (b1 : option blockopt) : resp :=
+  match r with ROk x => set_block1 x b1 | RRaise e => error_to_message e end.
+Definition sstep (T : Z) (st : sstate) (e : sevent) : sstate * soutput :=
+  match e with
+  | SBegin id req =>
+    ({| s_now := s_now st; s_res := s_res st; s_pending := (id, req) :: s_pending st |}, SOBegin [req])
+  | SFinish id rendering =>
+    match pending_get id (s_pending st) with
+    | None => (st, SOFinish None (snd (rsizes (s_res st))))
+    | Some req =>
+      let '(ca, _, r) := extract_or_insert T (s_now st) (block2 (s_res st)) req rendering in
+      let s' := {| block1 := block1 (s_res st); block2 := ca |} in
+      ({| s_now := s_now st; s_res := s'; s_pending := filter (fun p => negb (fst p =? id)) (s_pending st) |},
+       SOFinish (Some (render_result_of r (m_block1 req))) (snd (rsizes s')))
+    end
+  | SLater req =>
+    let '(s', calls, res) := render_to_pipe T (s_now st) (s_res st) req {| p_code := 0; p_block1 := None; p_block2 := None; p_payload := [] |} in
+    ({| s_now := s_now st; s_res := s'; s_pending := s_pending st |}, SOLater calls res (snd (rsizes s')))
+  | SAdvance dt =>
+    let s' := rstate_advance T (s_now st + dt) (s_res st) in
+    ({| s_now := s_now st + dt; s_res := s'; s_pending := s_pending st |}, SOAdvance (snd (rsizes s')))
+  end.
+Fixpoint srun (T : Z) (st : sstate) (es : list sevent) : list soutput :=
+  match es with
+  | [] => []
+  | e :: r => let '(st1, o) := sstep T st e in o :: srun T st1 r
+  end.
+Definition sstate_init : sstate := {| s_now := 0; s_res := rstate_empty; s_pending := [] |}.
